@@ -268,8 +268,18 @@ P_C17 == Quiescent => \A qi \in Insts : running[qi][Def.root] =>
             \A qk \in 1..Len(Def.flags) : FlagVec(qi, Def.root)[qk] = QFlagOracle(qi, Def.flags[qk])
 
 \* ---------------------------------------------------------------- placeholders decided by conformance only (see DESIGN.md)
-P_C05 == Quiescent => \A qi \in 1..QLen : (obs[qi].k = "nt") => ~(obs[qi].p \in defd[obs[qi].i] /\ \E qj \in 1..QLen : qj < qi /\ obs[qj].k = "deferred" /\ obs[qj].p = obs[qi].p
+\* position of the first deferral of payload qp
+QArrival(qi, qp) == CHOOSE qk \in 1..Len(defseq[qi]) : defseq[qi][qk].p = qp /\ \A qj \in 1..(qk-1) : defseq[qi][qj].p # qp
+P_C05 == Quiescent =>
+   \* a deferred occurrence is never reported through no_transition while it is pending
+   /\ \A qi \in 1..QLen : (obs[qi].k = "nt") => ~(obs[qi].p \in defd[obs[qi].i] /\ \E qj \in 1..QLen : qj < qi /\ obs[qj].k = "deferred" /\ obs[qj].p = obs[qi].p
                                                         /\ ~\E qk \in (qj+1)..(qi-1) : obs[qk].k = "pei" /\ obs[qk].p = obs[qi].p)
+   \* deferred occurrences of one type, handled by one machine, are handled in their arrival order.
+   \* back / back11: arrival = the moment the occurrence was first offered and deferred (position of its first deferral);
+   \* backmp11: the event pool is queue and deferral store at once, arrival = submission (payloads are issued in submission order)
+   /\ \A qi \in Insts : \A qa, qb \in 1..Len(hdl[qi]) :
+         (qa < qb /\ hdl[qi][qa].t = hdl[qi][qb].t /\ hdl[qi][qa].m = hdl[qi][qb].m /\ hdl[qi][qa].p # hdl[qi][qb].p) =>
+             IF IsB THEN QArrival(qi, hdl[qi][qa].p) < QArrival(qi, hdl[qi][qb].p) ELSE hdl[qi][qa].p < hdl[qi][qb].p
 P_C08 == TRUE
 P_C09 == TRUE
 P_C18 == Quiescent => \A qi \in 1..QLen : (IsCb(obs[qi]) /\ obs[qi].e \notin {"start", "stop", "none"}) => obs[qi].e \in Def.events
